@@ -9,6 +9,13 @@ import time
 sys.path.insert(0, os.path.dirname(os.path.abspath(__file__)))
 import common as C
 
+try:  # kill -USR1 <pid> prints where a check is (diagnosing a check that does not come back)
+    import faulthandler
+    import signal
+    faulthandler.register(signal.SIGUSR1, all_threads=True)
+except Exception:
+    pass
+
 ALL = ["C%02d" % i for i in range(1, 20)]
 
 
